@@ -37,6 +37,8 @@ def cases(draw, tier="quick"):
     P["hs_slow"] = draw(st.sampled_from([[False, False], [False, False], [True, False], [True, True]]))
     n = draw(st.integers(10, 300))
     P["closing_drops"] = draw(st.booleans())   # graceful server closes pass through the WebSocket CLOSING state
+    # outages: a budget of reconnection attempts that fail at the TCP level, several in a row
+    P["re_refuse"] = draw(st.sampled_from([[0, 0], [0, 0], [3, 0], [0, 7], [12, 12]]))
     P["tape"] = draw(st.binary(min_size=n, max_size=n))
     return P
 
@@ -97,6 +99,8 @@ def run_case(P):
     for (i, ns, ms, as_) in rec.drop_states:
         res.notes["drop@N=%s,M=%s,A=%s" % (ns, ms, as_)] += 1
     res.notes["drops"] += rec.drops
+    res.notes["consecutive_failed_reconnects>=5"] += int(getattr(rec.world, "max_failed_attempts", 0) >= 5)
+    res.notes["consecutive_failed_reconnects>=2"] += int(getattr(rec.world, "max_failed_attempts", 0) >= 2)
     res.notes["failed_ws_negotiations_on_reconnect"] += rec.adv["hsfail"]
     res.trace = mbworld.abstract_trace(rec)
     res.sample = dict(params=P, drops=rec.drops, drop_states=rec.drop_states[:6],
